@@ -3,9 +3,9 @@
 import json, subprocess
 
 CHECKS = {
- "C01": ("exploration", "runtime monitoring: hostile workload in child worker processes; crash/fatal/hang observers, structured-error oracle, scanner step-count hook",
-         "Every build runs in a worker process; panics are caught per case, process deaths (stack overflow, runtime throw, memory cap) are attributed to the case in flight, hangs to a watchdog with isolated re-run; the scanner's work is counted through the step hook (bound 3*len+64 per scan). Exploration level: held on the executions produced (hostile byte strings, all macro digraphs on <=3 macros, all include digraphs on <=3 files, root specials), not a proof of totality.", "§3 C01"),
- "C04": ("exploration", "runtime monitoring: reference JDoc-Exchange shape validator over every accepted build of a hostile/targeted workload",
+ "C01": ("exploration", "runtime monitoring: hostile workload in child worker processes; crash/fatal/hang/memory observers, structured-error oracle, scanner step-count hook, CPU-time scaling monitor (n vs 4n) for the phases after the scanner",
+         "Every build runs in a worker process; panics are caught per case, process deaths (stack overflow, runtime throw, memory cap) are attributed to the case in flight, hangs to a watchdog with isolated re-run; the work after the scanner is observed as CPU time of the build on 52 families of documents that repeat one construct n and 4n times (violation: more than 15 CPU-seconds, or more than 1.5 CPU-seconds and more than 24 times the smaller document); the scanner's work is counted through the step hook (bound 3*len+64 per scan). Exploration level: held on the executions produced (hostile byte strings, all macro digraphs on <=3 macros, all include digraphs on <=3 files, root specials), not a proof of totality.", "§3 C01"),
+ "C04": ("exploration", "runtime monitoring: reference JDoc-Exchange shape validator over every accepted build of a hostile/targeted workload; CPU-time scaling monitor for the serialisers",
          "Every accepted build is serialised with ToJson/ToJsonIndent; outputs are parsed (order-preserving), compared up to whitespace and validated against a shape validator written from the JDoc Exchange 2.0.0 layout; every project outside the mutant stream is built again and the two accessors are called concurrently on that one catalog (delays at the yield hooks), same oracle; a worker that dies or hangs is a violation.", "§3 C04"),
  "C05": ("exploration", "runtime monitoring: cross-reference closure checker over serialised catalogs",
          "Every accepted valid-UTF-8 catalog is parsed and all references are resolved in both directions (ids, tags<->interactions per protocol, usedUserTypes/Enums, path variables, codes, bodies, version).", "§3 C05"),
@@ -18,12 +18,12 @@ CHECKS = {
  "C12": ("exploration", "runtime monitoring: lexeme well-formedness + coverage-completeness monitor on the public scanner; exactness against the renderer's token map",
          "Every lexeme stream of the hostile workload is checked for bounds, order, per-directive grammar, per-type content and for uncovered non-trivia bytes between lexemes; rendered documents are compared with the renderer's ground-truth token map.", "§3 C12"),
  "C13": ("exploration", "runtime monitoring: exhaustive breadth-first probing of the scanner over the 256-byte alphabet against an independent keyword list",
-         "Every live keyword prefix x 256 bytes + EOF and every completed keyword x 256 bytes + EOF in four start contexts (723k probes), plus all 530 words x 257 followers and ~4000 near misses at a line start inside a Description text in three contexts (493k probes); exhaustive for the stated space.", "§3 C13"),
+         "Every live keyword prefix x 256 bytes + EOF and every completed keyword x 256 bytes + EOF in thirteen start contexts; every byte that can start nothing followed by every byte, by 21 multi-byte / line-end / directive tails and (bytes above 0x7F, three contexts) by all pairs of UTF-8 continuation bytes: the error must sit on the first deviating byte whatever follows (2.4M probes), plus all 530 words x 257 followers and ~4000 near misses at a line start inside a Description text in three contexts (493k probes); exhaustive for the stated space.", "§3 C13"),
  "C14": ("fault_enumeration", "runtime monitoring: file-access hook as deciding observer over an enumerated parameter space and enumerated include graphs; strace cross-check",
          "All strings over {a . / \\ ~} up to length 5/7 (bare and quoted) and hostile extras against a sandbox with decoys; all include digraphs on <=3 files and sampled 4-5 file graphs; seeded include trees over six nested directories (same parameter text resolving differently per directory) against a reference resolver; thorough tier cross-checks the hook against strace.", "§3 C14"),
  "C16": ("exploration", "runtime monitoring: history check of accessor call sequences against per-accessor canonical values",
          "All 780 (quick) / 19,530 (thorough) call sequences over the five accessors on fresh builds of selected projects, sampled length-6 sequences on the rest; every call must return its canonical bytes; a call that never returns is a violation.", "§3 C16"),
- "C17": ("exploration", "runtime monitoring: reference OpenAPI-3.0.3 subset validator over every accepted build; panic observer",
+ "C17": ("exploration", "runtime monitoring: reference OpenAPI-3.0.3 subset validator over every accepted build; panic observer; CPU-time scaling monitor for the export",
          "Every accepted build is exported; a panic is a violation, an error value is counted, a document is validated against the catalog it came from.", "§3 C17"),
  "C18": ("exploration", "Go race detector (-race) over concurrent builds/serialisations with jitter at yield hooks, plus comparison with a sequential baseline",
          "Workers built with -race run 16 goroutines x 3 rounds building different projects and 8 goroutines serialising one catalog; race reports are counted from the log and every result is compared with the sequential baseline.", "§3 C18"),
